@@ -5,7 +5,7 @@ From Coq Require Import ZArith List String Ascii Bool Permutation.
 From Gen Require Import Elements TokenTables SmartsTables.
 From Model Require Import PyBase Graph PeriodicTable Tokenize Smarts Query SmartsFull.
 From Model Require Parser.
-From Proofs Require Import QueryProofs TokenizeProofs SmartsProofs SmartsRoundtrip SmartsParser SmartsFullProofs SmartsDenote SmartsDenoteText SmartsTree SmartsTreeText SmartsStereo SmartsRing SmartsRingText SmartsMolMatch SmartsPins SmartsNumbers SmartsDots SmartsDotsText SmartsCanonical.
+From Proofs Require Import QueryProofs TokenizeProofs SmartsProofs SmartsRoundtrip SmartsParser SmartsFullProofs SmartsDenote SmartsDenoteText SmartsTree SmartsTreeText SmartsStereo SmartsRing SmartsRingText SmartsMolMatch SmartsPins SmartsNumbers SmartsDots SmartsDotsText SmartsCanonical SmartsRingDots SmartsRingDotsText.
 Import ListNotations.
 Open Scope Z_scope.
 
@@ -691,3 +691,44 @@ Theorem C08_canonical_single_atom : forall p q, canonical p -> build_atom p = Ok
   smarts_full (string_of_list_ascii (bracket (spell_query p))) = Ok ([atom_result p q], []).
 Proof. exact canonical_single_atom. Qed.
 Print Assumptions C08_canonical_single_atom.
+
+(* ---------------------------------------------------------------------------------------------------------------- *)
+(* THE FULL GRAMMAR of the denotation theorems:
+     pattern := tree ( "." tree )*
+     tree    := atom ( bond closure )* ( "(" bond tree ")" )* ( bond tree )?
+     atom    := "[" body "]" | N O P S F I C B Cl Br | c n o p s b          closure := 1 .. 9 | %10 .. %99
+     bond    := nothing | - = # : ~ | two of them with a comma | !- != !# !: , each optionally followed by ;@ or ;!@
+   For EVERY such text: smarts() builds the atoms written, in order; every atom is bonded to its parent in its own tree; every pair
+   of equal closure numbers - also across a dot - gives a bond between the atoms carrying them (den_pattern); provided every
+   closure is closed, no bond joins an atom to itself and no two bonds join the same atoms (otherwise smarts() rejects) *)
+Theorem C08_rpattern_denotation : forall t ts qs bonds,
+  rok_tree t -> Forall rok_tree ts -> den_pattern t ts = Some ([], bonds) ->
+  Forall2 (fun p q => build_atom p = Ok q) (atoms_rpattern t ts) qs ->
+  NoDup (explicit_maps (atoms_rpattern t ts)) ->
+  distinct_pairs [] bonds -> Forall payload_valid bonds ->
+  full_of_tokens (tok_rpattern t ts) (atoms_rpattern t ts) =
+  Ok (map (fun pq => atom_result (fst pq) (snd pq)) (combine (atoms_rpattern t ts) qs), map to_sbond bonds).
+Proof. exact rpattern_denotation. Qed.
+Print Assumptions C08_rpattern_denotation.
+
+Theorem C08_full_text_denotation : forall t ts qs bonds,
+  xok_tree t -> Forall xok_tree ts -> den_pattern (to_rtree t) (map to_rtree ts) = Some ([], bonds) ->
+  Forall2 (fun p q => build_atom p = Ok q) (atoms_rpattern (to_rtree t) (map to_rtree ts)) qs ->
+  NoDup (explicit_maps (atoms_rpattern (to_rtree t) (map to_rtree ts))) ->
+  distinct_pairs [] bonds -> Forall payload_valid bonds ->
+  smarts_full (string_of_list_ascii (text_xpattern t ts)) =
+  Ok (map (fun pq => atom_result (fst pq) (snd pq)) (combine (atoms_rpattern (to_rtree t) (map to_rtree ts)) qs), map to_sbond bonds).
+Proof. exact full_text_denotation. Qed.
+Print Assumptions C08_full_text_denotation.
+
+Theorem C08_full_text_example :
+  let t1 := XNode (TBr (s2l "C;D2")) (qp "C;D2") [(BNone, CD D1)] (XBranch (BCore (CSym Bdouble) None) (XNode (TSym UO) (simple_query "O") [] XNil) XNil) in
+  let t2 := XNode (TSym UN) (simple_query "N") [(BCore (CSym Bsingle) None, CD D1)] (XNext BNone (XNode (TSym Uc) (simple_query "C") [] XNil)) in
+  xok_tree t1 /\ xok_tree t2 /\ string_of_list_ascii (text_xpattern t1 [t2]) = "[C;D2]1(=O).N-1c"%string /\
+  den_pattern (to_rtree t1) [to_rtree t2] = Some ([], [(1, 0, PInt 2); (2, 0, PInt 1); (3, 2, PInt 1)]) /\
+  smarts_full "[C;D2]1(=O).N-1c" =
+  Ok ([(QElem 6 None (mkQX 0 false [2] [] [] [] [] false), None); (QElem 8 None (mkQX 0 false [] [] [] [] [] false), None);
+       (QElem 7 None (mkQX 0 false [] [] [] [] [] false), None); (QElem 6 None (mkQX 0 false [] [] [] [] [] false), None)],
+      [mkSB 1 0 (mkQB [2] None) None; mkSB 2 0 (mkQB [1] None) None; mkSB 3 2 (mkQB [1] None) None]).
+Proof. exact full_text_example. Qed.
+Print Assumptions C08_full_text_example.
